@@ -133,8 +133,10 @@ Fixpoint c08_run (repos : list string) (m : lmap) (steps : list wstep) : bool :=
                   (map (fun x => if String.eqb (fst (fst x)) r then (r', snd (fst x), snd x) else x) m) t
       | OSquash r _ _ _, _ => true   (* squash removes labels: judged by C10; stop following the map *)
       | OSetLabel r n b, WRes ok =>
-          (* the API accepts the documented alphabet only *)
-          Bool.eqb ok (live r && PathsCheck.label_name_ok n && negb (String.eqb b EmptyString)) &&
+          (* names of the documented alphabet are accepted on a live repository; nothing is accepted on an
+             unknown one; whatever else is accepted must behave (it enters the map below) *)
+          implb ok (live r) &&
+          implb (live r && PathsCheck.label_name_ok n && negb (String.eqb b EmptyString)) ok &&
           (* setting a label changes no bundle and no other label *)
           match ws_snaps s with
           | Some (before, after) =>
@@ -233,7 +235,14 @@ Definition c10_step_ok (s : wstep) : bool :=
       let keep := filter (fun id => existsb (String.eqb id) (skipn (List.length before - n) before) || existsb (String.eqb id) tagged) before in
       strs_eqb (committed r (sn_meta a)) keep &&
       forallb (fun id => entries_eqb (bundle_entries r id (sn_meta a)) (bundle_entries r id (sn_meta b))) keep &&
-      ListCheck.pairs_eqb (spec_labels r EmptyString (sn_vmeta a)) (filter (fun l => existsb (String.eqb (snd l)) keep) labels_b) &&
+      (* labels of kept bundles are intact; no label is left on a bundle this squash removed; no label
+         appears (labels that pointed nowhere before may or may not be cleaned up) *)
+      let labels_a := spec_labels r EmptyString (sn_vmeta a) in
+      let on_kept := filter (fun l : string * string => existsb (String.eqb (snd l)) keep) in
+      ListCheck.pairs_eqb (on_kept labels_a) (on_kept labels_b) &&
+      forallb (fun l : string * string =>
+                 (existsb (String.eqb (snd l)) keep || negb (existsb (String.eqb (snd l)) before)) &&
+                 existsb (fun l' : string * string => String.eqb (fst l) (fst l') && String.eqb (snd l) (snd l')) labels_b) labels_a &&
       frame_ok (fun k => negb (belongs r k)) (sn_meta b) (sn_meta a) &&
       frame_ok (fun k => negb (belongs r k)) (sn_vmeta b) (sn_vmeta a)
   | _, _, _ => true
